@@ -94,5 +94,34 @@ def main_feeders():
     sys.exit(1 if fails else 0)
 
 
+def main_sgen():
+    """an asynchronous / doubly-fed sgen at the bus of a network feeder: the feeder's contribution must not vanish"""
+    import numpy as np
+    import pandapower as pp
+    import pandapower.shortcircuit as sc
+    fails = []
+    for gtype, kw in (("async", dict(lrc_pu=5., rx=0.1, sn_mva=3.)), ("async_doubly_fed", dict(kappa=1.7, max_ik_ka=0.3, rx=0.1, sn_mva=3.))):
+        def build(with_sgen):
+            net = pp.create_empty_network()
+            b0 = pp.create_bus(net, 20.); b1 = pp.create_bus(net, 20.)
+            pp.create_ext_grid(net, b0, s_sc_max_mva=500., rx_max=0.1)
+            pp.create_line_from_parameters(net, b0, b1, 4., 0.2, 0.3, 100., 0.4, endtemp_degree=80.)
+            if with_sgen:
+                pp.create_sgen(net, b0, p_mw=2., sn_mva=kw["sn_mva"], generator_type=gtype, current_source=False, **{k: v for k, v in kw.items() if k != "sn_mva"})
+            return net, b0
+        ref, b0 = build(False)
+        sc.calc_sc(ref, case="max", bus=[b0])
+        net, b0 = build(True)
+        sc.calc_sc(net, case="max", bus=[b0])
+        a, b = ref.res_bus_sc.ikss_ka.at[b0], net.res_bus_sc.ikss_ka.at[b0]
+        if b < a - 1e-9:
+            fails.append(f"{gtype} sgen at the feeder bus: ikss falls from {a:.3f} kA (feeder alone) to {b:.3f} kA when the sgen is added")
+    for f in fails:
+        print("REPRODUCED:", f)
+    if not fails:
+        print("not reproduced: converter / asynchronous sources add to the short-circuit current of their bus")
+    sys.exit(1 if fails else 0)
+
+
 if __name__ == "__main__":
     main()
